@@ -242,7 +242,8 @@ def header(prog, desc=None, capital_paper=False):
                 if col is None:
                     out.append([NAN if key == "px" else default] + [default] * (T - 1))
                 else:
-                    out.append([NAN if key in ("px",) else default] + [NAN if v is None else rat(v) for v in col])
+                    # (the engine prepends a NaN row to every frame it is given)
+                    out.append([NAN if key in ("px", "bidoffer") else default] + [NAN if v is None else rat(v) for v in col])
         return out
 
     comm = prog["bt"].get("comm") or {"k": "zero", "a": Z, "b": Z}
@@ -287,8 +288,8 @@ SESSION = None
 
 
 class RootLog:
-    def __init__(self, C, root, dts, label):
-        self.rec = treedrv.Recorder(C, root=root, dts=dts)
+    def __init__(self, C, root, dts, label, impl=False):
+        self.rec = treedrv.Recorder(C, root=root, dts=dts, impl=impl)
         self.depth = 0
         self.label = label
         self.index = {}
@@ -320,9 +321,10 @@ class Session:
         self.wdec = Decoder(1000, tol=1e-12)
         self.spylog = []
         self.order = []
+        self.impl = False  # also snapshot the private state (Trace_BtImpl conformance)
 
     def register(self, root, C, label):
-        lg = RootLog(C, root, self.dts, label)
+        lg = RootLog(C, root, self.dts, label, impl=self.impl and label == "main")
         self.logs[id(root)] = lg
         self.order.append(lg)
         return lg
@@ -532,12 +534,13 @@ def install():
 install()
 
 
-def run_program(prog, record=True, tid0=0, lazy=True, seed=None):
+def run_program(prog, record=True, tid0=0, lazy=True, seed=None, impl=False):
     """Build and run the backtest of a program.  Returns dict with the finished
     backtest object ('bt'), the traces (one per recorded root), spy log, and
     'exc' if construction / run raised."""
     global SESSION
     sess = Session(prog)
+    sess.impl = bool(impl)
     out = {"traces": [], "spy": sess.spylog, "exc": "none", "msg": ""}
     if seed is not None:
         random.seed(seed)
